@@ -8,7 +8,8 @@ from pyvc.engine import (B, I, ediv, BoolV, BytesV, FileV, IntV, ListV, LoopSpec
 from pyvc.discharge import register_opaque
 from pyvc.model import FnContract, Model
 
-K = z3.Int("k")
+K = z3.Int("k")  # byte index in quantified contracts
+T = z3.Int("t")  # table index (BAT / map entry): instantiated by pattern only
 U32 = 0xFFFFFFFF
 U64 = 0xFFFFFFFFFFFFFFFF
 
@@ -40,7 +41,7 @@ def le(at, pos, width):
 
 def byte_range_axiom(arr):
     """every byte of a file is in 0..255"""
-    return z3.ForAll([K], z3.And(z3.Select(arr, K) >= 0, z3.Select(arr, K) <= 255))
+    return z3.ForAll([T], z3.And(z3.Select(arr, T) >= 0, z3.Select(arr, T) <= 255))
 
 
 def ret_bytes(rv):
